@@ -25,13 +25,16 @@
                                 — two separate steps in that order; the callback may add taskpools in between
     parsec_taskpool_wait(p)   = tpWaitBegin p ; loop ... ; tpWaitReturn  (state TERMINATED, i.e. after dec)
     DTD                       = arm p (on_enter_wait: detector ready), insert t p (one more task)
+    pending runtime actions   = startupReady t n (a startup hook sets n pending actions and declares the detector
+                                ready), actionDone t q (a callback releases one action of q; the last release detects q's
+                                termination and runs q's callback nested: Sub.ncb q), nestDec t (active -= 1 for q)
 
   Every applied step stamps the objects it touches with a global clock (this mirrors the stamps the
   harness takes from one global atomic counter), so that "before/after" statements are arithmetic.
 -/
 namespace ParsecVerif.Context
 
-inductive TpSt | notAdded | adding | earlyCb | earlyDec | added | inCb | done
+inductive TpSt | notAdded | adding | earlyCb | earlyDec | added | inCb | inCbN | done
 deriving Repr, DecidableEq
 
 structure Tp where
@@ -40,6 +43,7 @@ structure Tp where
   dtd : Bool := false        -- static: detector armed by on_enter_wait, not by add
   ready : Bool := false
   total : Nat := 0
+  pend : Nat := 0            -- pending runtime actions (besides the tasks)
   started : Nat := 0
   ended : Nat := 0
   cbs : Nat := 0             -- number of executions of the completion callback
@@ -54,8 +58,10 @@ deriving Repr
 inductive Base | idle | task (p : Nat) | cb (p : Nat)
 deriving Repr, DecidableEq
 
-/-- inside parsec_context_add_taskpool(q): before the increment (`adding`), after it (`startup`) -/
-inductive Sub | none | adding (q : Nat) | startup (q : Nat)
+/-- inside parsec_context_add_taskpool(q): before the increment (`adding`), after it (`startup`);
+    `ncb q`: inside parsec_taskpool_termination_detected(q) NESTED in the completion callback the thread
+    is running (the callback released the last pending action of q) -/
+inductive Sub | none | adding (q : Nat) | startup (q : Nat) | ncb (q : Nat)
 deriving Repr, DecidableEq
 
 inductive WMode | parked | looping | exited
@@ -86,6 +92,7 @@ inductive Tr
   | addCall (t q : Nat) | startupAdd (t q : Nat) | earlyCb (t : Nat) | earlyDec (t : Nat) | addInc (t : Nat)
   | addReturn (t : Nat)
   | arm (p : Nat) | insert (t p : Nat)
+  | startupReady (t n : Nat) | actionDone (t q : Nat) | nestDec (t : Nat)
 deriving Repr, DecidableEq
 
 /-- initial state: `k` workers (so `k+1` threads), the given taskpools, nothing added, not started -/
@@ -179,7 +186,7 @@ def step? (s : St) : Tr → Option St
   | .detect t p =>
     match s.tps[p]? with
     | some tp =>
-      if canExec s t = true ∧ idleT s t = true ∧ tp.st = .added ∧ tp.ready = true ∧ tp.ended = tp.total then
+      if canExec s t = true ∧ idleT s t = true ∧ tp.st = .added ∧ tp.ready = true ∧ (tp.ended = tp.total ∧ tp.pend = 0) then
         some (tick { s with bases := s.bases.set t (.cb p),
                             tps := s.tps.set p { tp with st := .inCb, cbs := tp.cbs + 1, cbAt := s.clock, by_ := t } })
       else none
@@ -261,6 +268,42 @@ def step? (s : St) : Tr → Option St
       else none
     | none => none
 
+  | .startupReady t n =>
+    -- the startup hook of q declares n pending runtime actions, then the detector ready
+    -- (taskpool_set_runtime_actions ; taskpool_ready)
+    match s.subs[t]? with
+    | some (.startup q) =>
+      match s.tps[q]? with
+      | some tp =>
+        if tp.st = .added ∧ tp.ready = false then
+          some (tick { s with tps := s.tps.set q { tp with ready := true, pend := tp.pend + n } })
+        else none
+      | none => none
+    | _ => none
+  | .actionDone t q =>
+    -- a completion callback releases one pending runtime action of taskpool q
+    -- (taskpool_addto_runtime_actions(q, -1)); the release that reaches 0 on a ready detector detects
+    -- the termination of q in the same atomic operation and runs q's callback nested in the current one
+    match s.bases[t]?, s.subs[t]?, s.tps[q]? with
+    | some (.cb _), some .none, some tp =>
+      if tp.st = .added ∧ 0 < tp.pend then
+        if tp.ready = true ∧ tp.pend = 1 ∧ tp.ended = tp.total ∧ tp.started = tp.total then
+          some (tick { s with subs := s.subs.set t (.ncb q),
+                              tps := s.tps.set q { tp with pend := 0, st := .inCbN, cbs := tp.cbs + 1, cbAt := s.clock, by_ := t } })
+        else
+          some (tick { s with tps := s.tps.set q { tp with pend := tp.pend - 1 } })
+      else none
+    | _, _, _ => none
+  | .nestDec t =>
+    match s.subs[t]? with
+    | some (.ncb q) =>
+      match s.tps[q]? with
+      | some tp =>
+        some (tick { s with active := s.active - 1, subs := s.subs.set t .none,
+                            tps := s.tps.set q { tp with st := .done, decAt := s.clock } })
+      | none => none
+    | _ => none
+
 def step (s : St) (tr : Tr) : St := (step? s tr).getD s
 
 def run (k : Nat) (tps : List Tp) (trs : List Tr) : St := trs.foldl step (init k tps)
@@ -268,7 +311,7 @@ def run (k : Nat) (tps : List Tp) (trs : List Tr) : St := trs.foldl step (init k
 /-- a fresh (never added) taskpool descriptor: only the static fields may be chosen -/
 def Tp.fresh (tp : Tp) : Prop :=
   tp.st = .notAdded ∧ tp.started = 0 ∧ tp.ended = 0 ∧ tp.cbs = 0 ∧ tp.addAt = 0 ∧ tp.firstBegin = 0 ∧
-  tp.lastEnd = 0 ∧ tp.cbAt = 0 ∧ tp.decAt = 0 ∧ tp.ready = false ∧ (tp.early = true → tp.total = 0 ∧ tp.dtd = false)
+  tp.lastEnd = 0 ∧ tp.cbAt = 0 ∧ tp.decAt = 0 ∧ tp.ready = false ∧ (tp.early = true → tp.total = 0 ∧ tp.dtd = false) ∧ tp.pend = 0
 
 def mkTp (total : Nat) (early dtd : Bool) : Tp := { total := if early then 0 else total, early := early, dtd := dtd && !early }
 
